@@ -287,6 +287,10 @@ def _worker(args):
             stream = mod.cases(tier, seed, phase)
             if phase == 'main':
                 stream = itertools.chain(corpus_cases(prop), stream)
+            overlap = prop in OVERLAP_PROPS and not os.environ.get('VERIF_NO_OVERLAP')
+            held = None          # a case waiting for a partner to be run at the same time
+            mine = 0
+            todo = []            # (case, result) pairs ready to be accounted
             for idx, case in enumerate(stream):
                 if idx % n != k:
                     continue
@@ -295,13 +299,71 @@ def _worker(args):
                 if budget and time.time() - t0 > budget:
                     out['tags']['budget-stop'] = out['tags'].get('budget-stop', 0) + 1
                     break
+                mine += 1
+                if overlap and held is None and mine % 8 == 0:
+                    held = case
+                    continue
                 try:
-                    r = mod.run_case(case, model)
+                    if held is not None:
+                        todo = _run_overlapped(mod, model, [held, case])
+                        held = None
+                    else:
+                        todo = [(case, mod.run_case(case, model))]
                 except Exception:
                     out['errors'].append({'case': case, 'error': traceback.format_exc()[-1500:]})
+                    held = None
                     if len(out['errors']) > 5:
                         break
                     continue
+                for case, r in todo:
+                    _account(out, case, r)
+            if held is not None:
+                try:
+                    _account(out, held, mod.run_case(held, model))
+                except Exception:
+                    out['errors'].append({'case': held, 'error': traceback.format_exc()[-1500:]})
+        finally:
+            model.close()
+    except Exception:
+        out['errors'].append({'case': None, 'error': traceback.format_exc()[-2000:]})
+    out['keys'] = [hashlib.md5(repr(x).encode()).hexdigest()[:12] for x in out['keys']]
+    return out
+
+
+# properties whose cases run over scripted sockets in one greenlet: two of them can be run at the same time
+OVERLAP_PROPS = {'C05', 'C07', 'C08', 'C09', 'C10', 'C17'}
+
+
+def _run_overlapped(mod, model, cases):
+    """Run the cases at the same time, one greenlet each, every scripted-socket call yielding to the others: what a case
+    observes must not depend on the sessions next to it (class-level or module-level state shared between sessions)."""
+    import gevent
+    from harness.fakes.sock import ScriptSocket
+    res = [None] * len(cases)
+    errs = []
+
+    def go(i):
+        try:
+            res[i] = mod.run_case(cases[i], model)
+        except Exception:
+            errs.append(traceback.format_exc()[-1500:])
+    ScriptSocket.YIELD = True
+    try:
+        gs = [gevent.spawn(go, i) for i in range(len(cases))]
+        gevent.joinall(gs)
+    finally:
+        ScriptSocket.YIELD = False
+    if errs:
+        raise RuntimeError('overlapped run: ' + errs[0])
+    for r in res:
+        r.tags.append('run-overlapped')
+    return list(zip(cases, res))
+
+
+def _account(out, case, r):
+    if True:
+        if True:
+            if True:
                 out['evaluations'] += 1
                 if r.key is not None:
                     out['keys'].add(r.key)
@@ -314,12 +376,6 @@ def _worker(args):
                         out['hits'].append({'case': case, 'hit': h})
                 if len(out['samples']) < 2 and r.key is not None and out['evaluations'] % 7 == 1:
                     out['samples'].append(case)
-        finally:
-            model.close()
-    except Exception:
-        out['errors'].append({'case': None, 'error': traceback.format_exc()[-2000:]})
-    out['keys'] = [hashlib.md5(repr(x).encode()).hexdigest()[:12] for x in out['keys']]
-    return out
 
 
 def run_campaign(prop, tier, seed, phase='main', workers=None):
